@@ -247,6 +247,82 @@ WITNESS_CIRCUITS = [
 ]
 
 
+# Corpus "rewired": every circuit of the bounded space (<= 4 qubits, 3-4 gates, both gate kinds present, 2 <= W < n) for which
+# EVERY optimal assignment found by the brute force of this file wire-cuts a qubit and LATER gate-cuts a gate that touches
+# that re-wired qubit (optimum needs the qubit -> wire indirection inside a gate cut).  Encoding: gate kind c|s + the two
+# qubits, then ":W".  Computed once with `optimal assignments` of brute force over the whole space (independent of the package);
+# the first entry is the witness of seeded change C08-1.
+REWIRED_CORPUS = (
+    "s01s02s02c01:2 s01s02c03:2 s01s02c30:2 s01s12c13:2 s01s12c31:2 s01s20c03:2 s01s20c30:2 s01s21c13:2 s01s21c31:2 "
+    "c01c01s02c03:2 s01c01s02c03:2 c01s01s02c03:2 s01s01s02c03:2 c01c01s02c30:2 s01c01s02c30:2 c01s01s02c30:2 "
+    "s01s01s02c30:2 c01c01s12c13:2 s01c01s12c13:2 c01s01s12c13:2 s01s01s12c13:2 c01c01s12c31:2 s01c01s12c31:2 "
+    "c01s01s12c31:2 s01s01s12c31:2 c01c01s20c03:2 s01c01s20c03:2 c01s01s20c03:2 s01s01s20c03:2 c01c01s20c30:2 "
+    "s01c01s20c30:2 c01s01s20c30:2 s01s01s20c30:2 c01c01s21c13:2 s01c01s21c13:2 c01s01s21c13:2 s01s01s21c13:2 "
+    "c01c01s21c31:2 s01c01s21c31:2 c01s01s21c31:2 s01s01s21c31:2 s01s02c01c02:2 s01s02c01s02:2 s01s02c01c20:2 "
+    "s01s02c01s20:2 s01s02c02c01:2 s01c02s02c01:2 s01c02c02c03:2 s01s02c02c03:2 s01c02s02c03:2 s01s02s02c03:2 "
+    "s01s02c02c10:2 s01c02s02c10:2 s01s02s02c10:2 s01c02c02c30:2 s01s02c02c30:2 s01c02s02c30:2 s01s02s02c30:2 "
+    "c01s02s03c01:2 s01s02s03c01:2 s01c02c03c02:2 s01s02c03c02:2 s01c02s03c02:2 s01s02s03c02:2 s01c02c03s02:2 "
+    "s01s02c03s02:2 s01c02s03s02:2 c01s02s03c10:2 s01s02s03c10:2 s01s02c03c12:2 s01c02c03c20:2 s01s02c03c20:2 "
+    "s01c02s03c20:2 s01s02s03c20:2 s01c02c03s20:2 s01s02c03s20:2 s01c02s03s20:2 s01s02c03c21:2 s01s02c10c02:2 "
+    "s01s02c10s02:2 s01s02c10c20:2 s01s02c10s20:2 s01s02c12c03:2 s01c02s12c13:2 c01s02s12c23:2 s01s02c12c30:2 "
+    "s01c02s12c31:2 c01s02s12c32:2 s01s02c20c01:2 s01c02s20c01:2 s01s02s20c01:2 s01c02c20c03:2 s01s02c20c03:2 "
+    "s01c02s20c03:2 s01s02s20c03:2 s01s02c20c10:2 s01c02s20c10:2 s01s02s20c10:2 s01c02c20c30:2 s01s02c20c30:2 "
+    "s01c02s20c30:2 s01s02s20c30:2 s01s02c21c03:2 s01c02s21c13:2 c01s02s21c23:2 s01s02c21c30:2 s01c02s21c31:2 "
+    "c01s02s21c32:2 c01s02s30c01:2 s01s02s30c01:2 s01c02c30c02:2 s01s02c30c02:2 s01c02s30c02:2 s01s02s30c02:2 "
+    "s01c02c30s02:2 s01s02c30s02:2 s01c02s30s02:2 c01s02s30c10:2 s01s02s30c10:2 s01s02c30c12:2 s01c02c30c20:2 "
+    "s01s02c30c20:2 s01c02s30c20:2 s01s02s30c20:2 s01c02c30s20:2 s01s02c30s20:2 s01c02s30s20:2 s01s02c30c21:2 "
+    "c01c10s02c03:2 s01c10s02c03:2 c01s10s02c03:2 s01s10s02c03:2 c01c10s02c30:2 s01c10s02c30:2 c01s10s02c30:2 "
+    "s01s10s02c30:2 c01c10s12c13:2 s01c10s12c13:2 c01s10s12c13:2 s01s10s12c13:2 c01c10s12c31:2 s01c10s12c31:2 "
+    "c01s10s12c31:2 s01s10s12c31:2 c01c10s20c03:2 s01c10s20c03:2 c01s10s20c03:2 s01s10s20c03:2 c01c10s20c30:2 "
+    "s01c10s20c30:2 c01s10s20c30:2 s01s10s20c30:2 c01c10s21c13:2 s01c10s21c13:2 c01s10s21c13:2 s01s10s21c13:2 "
+    "c01c10s21c31:2 s01c10s21c31:2 c01s10s21c31:2 s01s10s21c31:2 s01s12c01c12:2 s01s12c01s12:2 s01s12c01c21:2 "
+    "s01s12c01s21:2 s01c12s02c03:2 s01s12c02c13:2 c01s12s02c23:2 s01c12s02c30:2 s01s12c02c31:2 c01s12s02c32:2 "
+    "s01s12c10c12:2 s01s12c10s12:2 s01s12c10c21:2 s01s12c10s21:2 s01s12c12c01:2 s01c12s12c01:2 s01s12s12c01:2 "
+    "s01s12c12c10:2 s01c12s12c10:2 s01s12s12c10:2 s01c12c12c13:2 s01s12c12c13:2 s01c12s12c13:2 s01s12s12c13:2 "
+    "s01c12c12c31:2 s01s12c12c31:2 s01c12s12c31:2 s01s12s12c31:2 c01s12s13c01:2 s01s12s13c01:2 s01s12c13c02:2 "
+    "c01s12s13c10:2 s01s12s13c10:2 s01c12c13c12:2 s01s12c13c12:2 s01c12s13c12:2 s01s12s13c12:2 s01c12c13s12:2 "
+    "s01s12c13s12:2 s01c12s13s12:2 s01s12c13c20:2 s01c12c13c21:2 s01s12c13c21:2 s01c12s13c21:2 s01s12s13c21:2 "
+    "s01c12c13s21:2 s01s12c13s21:2 s01c12s13s21:2 s01c12s20c03:2 s01s12c20c13:2 c01s12s20c23:2 s01c12s20c30:2 "
+    "s01s12c20c31:2 c01s12s20c32:2 s01s12c21c01:2 s01c12s21c01:2 s01s12s21c01:2 s01s12c21c10:2 s01c12s21c10:2 "
+    "s01s12s21c10:2 s01c12c21c13:2 s01s12c21c13:2 s01c12s21c13:2 s01s12s21c13:2 s01c12c21c31:2 s01s12c21c31:2 "
+    "s01c12s21c31:2 s01s12s21c31:2 c01s12s31c01:2 s01s12s31c01:2 s01s12c31c02:2 c01s12s31c10:2 s01s12s31c10:2 "
+    "s01c12c31c12:2 s01s12c31c12:2 s01c12s31c12:2 s01s12s31c12:2 s01c12c31s12:2 s01s12c31s12:2 s01c12s31s12:2 "
+    "s01s12c31c20:2 s01c12c31c21:2 s01s12c31c21:2 s01c12s31c21:2 s01s12s31c21:2 s01c12c31s21:2 s01s12c31s21:2 "
+    "s01c12s31s21:2 s01s20c01c02:2 s01s20c01s02:2 s01s20c01c20:2 s01s20c01s20:2 s01s20c02c01:2 s01c20s02c01:2 "
+    "s01s20s02c01:2 s01c20c02c03:2 s01s20c02c03:2 s01c20s02c03:2 s01s20s02c03:2 s01s20c02c10:2 s01c20s02c10:2 "
+    "s01s20s02c10:2 s01c20c02c30:2 s01s20c02c30:2 s01c20s02c30:2 s01s20s02c30:2 c01s20s03c01:2 s01s20s03c01:2 "
+    "s01c20c03c02:2 s01s20c03c02:2 s01c20s03c02:2 s01s20s03c02:2 s01c20c03s02:2 s01s20c03s02:2 s01c20s03s02:2 "
+    "c01s20s03c10:2 s01s20s03c10:2 s01s20c03c12:2 s01c20c03c20:2 s01s20c03c20:2 s01c20s03c20:2 s01s20s03c20:2 "
+    "s01c20c03s20:2 s01s20c03s20:2 s01c20s03s20:2 s01s20c03c21:2 s01s20c10c02:2 s01s20c10s02:2 s01s20c10c20:2 "
+    "s01s20c10s20:2 s01s20c12c03:2 s01c20s12c13:2 c01s20s12c23:2 s01s20c12c30:2 s01c20s12c31:2 c01s20s12c32:2 "
+    "s01s20c20c01:2 s01c20s20c01:2 s01s20s20c01:2 s01c20c20c03:2 s01s20c20c03:2 s01c20s20c03:2 s01s20s20c03:2 "
+    "s01s20c20c10:2 s01c20s20c10:2 s01s20s20c10:2 s01c20c20c30:2 s01s20c20c30:2 s01c20s20c30:2 s01s20s20c30:2 "
+    "s01s20c21c03:2 s01c20s21c13:2 c01s20s21c23:2 s01s20c21c30:2 s01c20s21c31:2 c01s20s21c32:2 c01s20s30c01:2 "
+    "s01s20s30c01:2 s01c20c30c02:2 s01s20c30c02:2 s01c20s30c02:2 s01s20s30c02:2 s01c20c30s02:2 s01s20c30s02:2 "
+    "s01c20s30s02:2 c01s20s30c10:2 s01s20s30c10:2 s01s20c30c12:2 s01c20c30c20:2 s01s20c30c20:2 s01c20s30c20:2 "
+    "s01s20s30c20:2 s01c20c30s20:2 s01s20c30s20:2 s01c20s30s20:2 s01s20c30c21:2 s01s21c01c12:2 s01s21c01s12:2 "
+    "s01s21c01c21:2 s01s21c01s21:2 s01c21s02c03:2 s01s21c02c13:2 c01s21s02c23:2 s01c21s02c30:2 s01s21c02c31:2 "
+    "c01s21s02c32:2 s01s21c10c12:2 s01s21c10s12:2 s01s21c10c21:2 s01s21c10s21:2 s01s21c12c01:2 s01c21s12c01:2 "
+    "s01s21s12c01:2 s01s21c12c10:2 s01c21s12c10:2 s01s21s12c10:2 s01c21c12c13:2 s01s21c12c13:2 s01c21s12c13:2 "
+    "s01s21s12c13:2 s01c21c12c31:2 s01s21c12c31:2 s01c21s12c31:2 s01s21s12c31:2 c01s21s13c01:2 s01s21s13c01:2 "
+    "s01s21c13c02:2 c01s21s13c10:2 s01s21s13c10:2 s01c21c13c12:2 s01s21c13c12:2 s01c21s13c12:2 s01s21s13c12:2 "
+    "s01c21c13s12:2 s01s21c13s12:2 s01c21s13s12:2 s01s21c13c20:2 s01c21c13c21:2 s01s21c13c21:2 s01c21s13c21:2 "
+    "s01s21s13c21:2 s01c21c13s21:2 s01s21c13s21:2 s01c21s13s21:2 s01c21s20c03:2 s01s21c20c13:2 c01s21s20c23:2 "
+    "s01c21s20c30:2 s01s21c20c31:2 c01s21s20c32:2 s01s21c21c01:2 s01c21s21c01:2 s01s21s21c01:2 s01s21c21c10:2 "
+    "s01c21s21c10:2 s01s21s21c10:2 s01c21c21c13:2 s01s21c21c13:2 s01c21s21c13:2 s01s21s21c13:2 s01c21c21c31:2 "
+    "s01s21c21c31:2 s01c21s21c31:2 s01s21s21c31:2 c01s21s31c01:2 s01s21s31c01:2 s01s21c31c02:2 c01s21s31c10:2 "
+    "s01s21s31c10:2 s01c21c31c12:2 s01s21c31c12:2 s01c21s31c12:2 s01s21s31c12:2 s01c21c31s12:2 s01s21c31s12:2 "
+    "s01c21s31s12:2 s01s21c31c20:2 s01c21c31c21:2 s01s21c31c21:2 s01c21s31c21:2 s01s21s31c21:2 s01c21c31s21:2 "
+    "s01s21c31s21:2 s01c21s31s21:2 "
+).split()
+
+
+def _decode_rewired(item):
+    body, W = item.split(":")
+    ops = [dict(name={"c": "cx", "s": "swap"}[body[k]], qs=[int(body[k + 1]), int(body[k + 2])]) for k in range(0, len(body), 3)]
+    return max(max(o["qs"]) for o in ops) + 1, ops, int(W)
+
+
 def _job(case):
     """run the implementation and the independent brute-force oracle on one case (also executed in worker processes)"""
     analyse(case)
@@ -310,6 +386,13 @@ def generate(rng, tier, outdir):
                 for mb in (10000, None):
                     emit("witness", dict(nq=nq, ops=ops, W=2, gate_lo=g_lo, wire_lo=w_lo, max_gamma=mg, max_backjumps=mb,
                                          seeds=[0, 1, None]))
+
+    # ---- corpus: optimum = wire cut of a qubit followed by a gate cut touching the re-wired qubit; unrestricted search ----
+    for k, item in enumerate(REWIRED_CORPUS):
+        nq, ops, W = _decode_rewired(item)
+        if not quick or k < 60 or k % 3 == 0:
+            emit("rewired", dict(nq=nq, ops=ops, W=W, gate_lo=True, wire_lo=True, max_gamma=1024, max_backjumps=None,
+                                 seeds=[k % 97, None]))
 
     # ---- bounded-exhaustive: every circuit up to relabelling on <= 4 qubits, every W and cut-kind combination ----
     gmax_full = 2 if quick else 4
@@ -409,6 +492,8 @@ def generate(rng, tier, outdir):
 
     return w.finish(
         rule="(1) corpus: the F3 witness class (cx;swap chains, W=2, max_gamma in {1,2,3,8}, every cut-kind combination, 3 seeds incl. None); "
+             "(1b) corpus of %d circuits of the bounded space whose every brute-force optimum wire-cuts a qubit and later gate-cuts a gate touching "
+             "the re-wired qubit (gate and wire cuts allowed, tight W, unrestricted search, 2 seeds; quick tier: the first 60 and every third); "
              "(2) bounded-exhaustive: every circuit up to qubit relabelling on <=4 qubits with <=%s two-qubit gates from {cx: gamma 3, swap: gamma 7}"
              "%s, every W in 1..n and every cut-kind combination, max_gamma/max_backjumps cycling through %s / %s, 2 seeds (1 seed for 4 gates); "
              "(2b) random circuits of that space with 3-4 gates, W < n, max_gamma in {1,2} (limits below the optimum on purpose); "
@@ -416,6 +501,6 @@ def generate(rng, tier, outdir):
              "(limits below the optimum included), max_backjumps in %s, 3 seeds incl. None; (4) malformed: invalid settings, no cut kind, W=0. "
              "Compared EXACTLY per seed with the model fed the recorded queue tape: sampling_overhead and minimum_reached (or the refusal). "
              "non-trivial = at least one cut made." % (
-                 gmax_full, " plus a random sample of %d circuits with 3-4 gates" % n_sample if n_sample else "",
+                 len(REWIRED_CORPUS), gmax_full, " plus a random sample of %d circuits with 3-4 gates" % n_sample if n_sample else "",
                  MAX_GAMMAS, BACKJUMPS, MAX_GAMMAS, BACKJUMPS),
         extra=dict(extra=dict(strict=True)))
